@@ -55,7 +55,7 @@ type Profile struct {
 	Disabled  map[string]bool
 }
 
-var allFeatures = []string{"closure", "loop", "goto", "pcall", "xpcall", "error", "rtfault", "coroutine", "wrap", "meta", "sort", "gsub", "fenv", "hostcall", "hostpcall", "clobber", "multiassign", "tailcall", "shadow", "factory", "level2"}
+var allFeatures = []string{"closure", "loop", "goto", "pcall", "xpcall", "error", "rtfault", "coroutine", "wrap", "meta", "sort", "gsub", "fenv", "hostcall", "hostpcall", "clobber", "multiassign", "tailcall", "shadow", "factory", "level2", "nested_yield", "tail_yield"}
 
 // ProfileFor returns the generator profile of an engine.
 func ProfileFor(name string) *Profile {
@@ -63,6 +63,7 @@ func ProfileFor(name string) *Profile {
 	for _, f := range allFeatures {
 		p.Allow[f] = true
 	}
+	p.Allow["tail_yield"], p.Allow["nested_yield"] = false, false
 	w := p.Weights
 	w["decl"], w["assign"], w["emit"], w["if"], w["loop"], w["do"], w["func"], w["call"] = 6, 6, 6, 3, 4, 1, 5, 5
 	w["pcall"], w["xpcall"], w["error"], w["rtfault"], w["co"], w["meta"], w["sort"], w["gsub"], w["fenv"], w["host"], w["clobber"], w["goto"] = 4, 3, 2, 2, 4, 2, 1, 1, 1, 2, 2, 2
@@ -75,6 +76,12 @@ func ProfileFor(name string) *Profile {
 	case "coroutine":
 		w["co"] = 14
 		p.YieldFix = -1
+		p.Allow["tail_yield"], p.Allow["nested_yield"] = true, true
+	case "cobodies":
+		p.Allow["tail_yield"], p.Allow["nested_yield"] = true, true
+		w["co"] = 6
+		p.YieldFix = -1
+		p.MaxStmts = 12
 	case "stream":
 		p.MaxStmts = 25
 		p.Epilogue = false
@@ -114,6 +121,8 @@ type gen struct {
 	depth   int
 	coSeq   int
 	ctxSeq  int
+	nloc    int   // live locals of the function being generated (approximate upper bound)
+	locSave []int
 	globals []*varInfo
 }
 
@@ -127,8 +136,15 @@ func (g *gen) fresh(prefix string) string {
 	return fmt.Sprintf("%s%d", prefix, g.n)
 }
 
-func (g *gen) push() { g.scopes = append(g.scopes, &scope{}) }
-func (g *gen) pop()  { g.scopes = g.scopes[:len(g.scopes)-1] }
+func (g *gen) push() {
+	g.scopes = append(g.scopes, &scope{})
+	g.locSave = append(g.locSave, g.nloc)
+}
+func (g *gen) pop() {
+	g.scopes = g.scopes[:len(g.scopes)-1]
+	g.nloc = g.locSave[len(g.locSave)-1]
+	g.locSave = g.locSave[:len(g.locSave)-1]
+}
 func (g *gen) declare(v *varInfo) *varInfo {
 	s := g.scopes[len(g.scopes)-1]
 	s.vars = append(s.vars, v)
@@ -379,7 +395,7 @@ func (g *gen) tabCons() Expr {
 
 func (g *gen) cost(n int) { g.est += n * g.mult }
 
-func (g *gen) tight() bool { return g.est > g.p.MaxEst || g.stmts > g.p.MaxStmts*3 }
+func (g *gen) tight() bool { return g.est > g.p.MaxEst || g.stmts > g.p.MaxStmts*3 || g.nloc > 110 }
 
 // newLocal declares a fresh local; with the shadow feature it sometimes reuses a visible name of the same kind.
 func (g *gen) newLocal(prefix string, k vkind, fc *fctx) *varInfo {
@@ -404,7 +420,12 @@ func (g *gen) stmtsIn(n int, fc *fctx) []Stmt {
 	var out []Stmt
 	g.depth++
 	for i := 0; i < n; i++ {
-		out = append(out, g.stmt(fc)...)
+		if g.nloc > 125 {
+			break // the VM's register limit per function
+		}
+		ss := g.stmt(fc)
+		g.nloc += countLocals(ss)
+		out = append(out, ss...)
 	}
 	g.depth--
 	return out
@@ -809,4 +830,21 @@ func (g *gen) sGoto(fc *fctx) []Stmt {
 			&If{Conds: []Expr{Bin{"<", Var{iv}, Num{float64(iters)}}}, Blocks: [][]Stmt{{&Goto{Label: lbl}}}}}
 		return []Stmt{&Do{Body: out}}
 	}
+}
+
+
+// countLocals: locals declared directly by these statements (not in nested blocks or functions).
+func countLocals(ss []Stmt) int {
+	n := 0
+	for _, s := range ss {
+		switch x := s.(type) {
+		case *Local:
+			n += len(x.Names)
+		case *Call:
+			n += len(x.Names)
+		case *NumFor, *GenFor:
+			n += 4
+		}
+	}
+	return n
 }
